@@ -381,15 +381,20 @@ func c01Plumbing(ctx *core.Ctx) {
 	// ---- V9 / V10 in runLine
 	{
 		lg := graph(p, runLine)
-		var condCall, bangCall *ssa.Call
+		var condCall *ssa.Call
+		var bangCall ssa.Value // the boolean "the condition starts with '!'", however it is computed
 		for _, c := range lg.Calls("(*" + tsPkg + ".TestScript).condition") {
 			condCall = c
 		}
-		for _, c := range lg.Calls("strings.HasPrefix") {
-			if isConstStr("!")(c.Call.Args[1]) && condCall != nil && lg.Dominates(c, condCall) {
-				bangCall = c
+		lg.Instrs(func(i ssa.Instruction) {
+			v, ok := i.(ssa.Value)
+			if !ok || condCall == nil {
+				return
 			}
-		}
+			if _, pfx, ok := hasPrefixTest(v); ok && pfx == "!" && lg.Dominates(i, condCall) {
+				bangCall = v
+			}
+		})
 		var cmdLookup *ssa.Lookup
 		var userLookup *ssa.Lookup
 		lg.Instrs(func(i ssa.Instruction) {
@@ -414,7 +419,7 @@ func c01Plumbing(ctx *core.Ctx) {
 					reached := false
 					ex := &ssax.Explorer{G: lg, StopAtStart: true, Assume: func(v ssa.Value, nilness bool) ssax.Abs {
 						switch {
-						case v == ssa.Value(bangCall) && !nilness:
+						case v == bangCall && !nilness:
 							return ssax.AbsOf(bang)
 						case v == okv && !nilness:
 							return ssax.AbsOf(res)
@@ -429,7 +434,7 @@ func c01Plumbing(ctx *core.Ctx) {
 						}
 						return ssax.Continue
 					}}
-					exits := ex.Run(ssax.PointAt(bangCall))
+					exits := ex.Run(ssax.PointAt(bangCall.(ssa.Instruction)))
 					returned, again := false, false
 					for _, e := range exits {
 						switch e.Kind {
